@@ -6,6 +6,7 @@
 
 #include <functional>
 #include <map>
+#include <set>
 #include <string>
 #include <vector>
 
@@ -43,6 +44,9 @@ enum RunStatus { RS_OK = 0, RS_VIOLATION = 1, RS_INVALID = 2 };
 struct RunResult {
     int status = RS_OK;
     std::vector<Violation> v;
+    // violations whose key the caller tolerates (known findings): recorded,
+    // but they neither stop the run nor change its status
+    std::vector<Violation> tolerated;
     std::string invalid_why;
     std::uint64_t evhash = 0;    // hash of the event log
     std::uint64_t signature = 0; // canonical state signature (distinctness)
@@ -67,6 +71,7 @@ struct ExecOpts {
         const Plan&,
         std::map<std::string, std::map<std::string, std::string>>&)>
         solo;
+    std::set<std::string> tolerate; // keys of known findings
     std::string focus; // property under check: stop at its first violation;
                        // violations of other properties are recorded and
                        // the run goes on (unless continuing could crash)
